@@ -280,7 +280,7 @@ def check_property(engine, tier, base_seed, n_runs, jobs, budget_s=None, write_e
 
     replay_paths = []
     n_viol = sum(len(g) for g in viol_groups.values())
-    for (clause, sig), group in sorted(viol_groups.items(), key=lambda kv: repr(kv[0]))[:4]:
+    for (clause, sig), group in sorted(viol_groups.items(), key=lambda kv: repr(kv[0]))[:(1 if os.environ.get('VERIF_STOP_FIRST') else 4)]:
         first = sorted(group, key=lambda g: (g["seed"] is None, g["seed"]))[0]
         spec = first["spec"]
         v = first["v"]
